@@ -32,11 +32,20 @@
 (* by two clients; without keep-alives exactly one connection per request; *)
 (* every connection of a connect gun is a tunnel opened by its own CONNECT.*)
 (*                                                                         *)
+(* The rule about idle gaps is about ONE option: a pooled connection       *)
+(* survives any gap below the configured idle-conn-timeout, whatever the   *)
+(* other timeouts (response-header, expect-continue, tls-handshake, dial   *)
+(* timeout, keep-alive period) are; conversely, with a small               *)
+(* idle-conn-timeout and longer gaps (expiry) the pooled connection is     *)
+(* gone at the next shot: every shot travels on a connection of its own.   *)
+(*                                                                         *)
 (* Negative controls: Reuse = FALSE, a client that silently drops its      *)
 (* connection after every exchange although keep-alives are on;            *)
 (* IdleDrop = TRUE, a client that drops its pooled connection during an    *)
 (* idle gap shorter than idle-conn-timeout; ClientOf <- OwnClient with     *)
-(* NClients < instances, "one client per instance although shared".        *)
+(* NClients < instances, "one client per instance although shared";        *)
+(* ShortIdle with Expire = FALSE, idle-conn-timeout not wired (the pooled  *)
+(* connection outlives it).                                                *)
 (***************************************************************************)
 EXTENDS Naturals, FiniteSets
 
@@ -49,6 +58,8 @@ CONSTANTS Inst,      \* instance ids
           ClientOf,  \* instance -> the client it shoots with (identity: per-instance clients)
           NClients,  \* number of clients the configuration asks for (instances, or client-number)
           Serial,    \* TRUE: the instances take turns (at most one exchange in flight)
+          ShortIdle, \* TRUE: idle-conn-timeout is small and every instance idles longer than that between shots
+          Expire,    \* TRUE: a pooled connection older than idle-conn-timeout is not used again (the design)
           ConnectGun \* TRUE: connect gun, every dial ends with a CONNECT to the proxy target
 
 VARIABLES ninst,     \* number of clients configured for this run (per-instance clients: the instances)
@@ -60,15 +71,16 @@ VARIABLES ninst,     \* number of clients configured for this run (per-instance 
           busy,      \* instance -> connection with an exchange in flight, 0 if none
           sent,      \* instance -> requests sent so far
           fails,     \* client -> exchanges that failed so far
-          tun        \* connection -> the CONNECT that opened it (connect gun)
-vars == <<ninst, ka, cs, own, nreq, pool, busy, sent, fails, tun>>
+          tun,       \* connection -> the CONNECT that opened it (connect gun)
+          expiry     \* the run has idle gaps longer than its idle-conn-timeout
+vars == <<ninst, ka, cs, own, nreq, pool, busy, sent, fails, tun, expiry>>
 
 NoInst == "-"
 Conns == DOMAIN cs
 Clients == {ClientOf[i] : i \in Inst}
 GoodConnect == [uri |-> "GUNTARGET", host |-> "GUNTARGET"]
 
-Init == /\ ka \in KAModes /\ ninst = NClients
+Init == /\ ka \in KAModes /\ ninst = NClients /\ expiry = ShortIdle
         /\ cs = <<>> /\ own = <<>> /\ nreq = <<>> /\ tun = <<>>
         /\ pool = [k \in Clients |-> {}] /\ busy = [i \in Inst |-> 0] /\ sent = [i \in Inst |-> 0]
         /\ fails = [k \in Clients |-> 0]
@@ -100,7 +112,7 @@ Dial(i) == /\ busy[i] = 0 /\ pool[ClientOf[i]] = {} /\ sent[i] < MaxReq
            /\ LET c == Cardinality(Conns) + 1
               IN  /\ DialEff(c) /\ pool' = [pool EXCEPT ![ClientOf[i]] = {c}]
                   /\ IF ConnectGun THEN TunnelEff(c, GoodConnect) ELSE tun' = tun
-           /\ UNCHANGED <<ninst, ka, busy, sent, fails>>
+           /\ UNCHANGED <<ninst, ka, busy, sent, fails, expiry>>
 
 Send(i) == /\ busy[i] = 0 /\ pool[ClientOf[i]] # {} /\ sent[i] < MaxReq
            /\ Serial => Quiet
@@ -110,26 +122,28 @@ Send(i) == /\ busy[i] = 0 /\ pool[ClientOf[i]] # {} /\ sent[i] < MaxReq
                   /\ busy' = [busy EXCEPT ![i] = c]
                   /\ pool' = [pool EXCEPT ![ClientOf[i]] = @ \ {c}]
            /\ sent' = [sent EXCEPT ![i] = @ + 1]
-           /\ UNCHANGED <<ninst, ka, fails, tun>>
+           /\ UNCHANGED <<ninst, ka, fails, tun, expiry>>
 
 Respond(i) == /\ busy[i] # 0
               /\ LET c == busy[i]
-                 IN  IF ka /\ Reuse
+                 IN  IF ka /\ expiry /\ Expire
+                     THEN IdleEff(c) /\ UNCHANGED pool      \* too old by the time of the next shot: never used again
+                     ELSE IF ka /\ Reuse
                      THEN IdleEff(c) /\ pool' = [pool EXCEPT ![ClientOf[i]] = @ \cup {c}]
                      ELSE IF ka THEN IdleEff(c) /\ UNCHANGED pool      \* dropped by the client, still open at the target
                      ELSE ClosedEff(c) /\ UNCHANGED pool
               /\ busy' = [busy EXCEPT ![i] = 0]
-              /\ UNCHANGED <<ninst, ka, own, nreq, sent, fails, tun>>
+              /\ UNCHANGED <<ninst, ka, own, nreq, sent, fails, tun, expiry>>
 
 Fail(i) == /\ busy[i] # 0 /\ fails[ClientOf[i]] < MaxFail
            /\ ClosedEff(busy[i]) /\ FailEff(ClientOf[i])
            /\ busy' = [busy EXCEPT ![i] = 0]
-           /\ UNCHANGED <<ninst, ka, own, nreq, pool, sent, tun>>
+           /\ UNCHANGED <<ninst, ka, own, nreq, pool, sent, tun, expiry>>
 
 Gap(i) == /\ busy[i] = 0 /\ pool[ClientOf[i]] # {}
           /\ IF IdleDrop THEN \E c \in pool[ClientOf[i]] : ClosedEff(c) /\ pool' = [pool EXCEPT ![ClientOf[i]] = @ \ {c}]
                          ELSE UNCHANGED <<cs, pool>>
-          /\ UNCHANGED <<ninst, ka, own, nreq, busy, sent, fails, tun>>
+          /\ UNCHANGED <<ninst, ka, own, nreq, busy, sent, fails, tun, expiry>>
 
 Next == \E i \in Inst : Dial(i) \/ Send(i) \/ Respond(i) \/ Fail(i) \/ Gap(i)
 Spec == Init /\ [][Next]_vars
@@ -144,12 +158,14 @@ ConnsOf(k) == {c \in Conns : own[c] = k}
 
 \* keep-alive: all requests of a client that carries one request at a time travel on one connection - whatever
 \* the idle gaps below idle-conn-timeout - except that a failed exchange costs the connection ...
-OneConnPerInstance == ka => \A k \in DOMAIN fails : Cardinality(ConnsOf(k)) <= 1 + fails[k]
+OneConnPerInstance == (ka /\ ~expiry) => \A k \in DOMAIN fails : Cardinality(ConnsOf(k)) <= 1 + fails[k]
 \* ... so a target that keeps connections open sees no more connections than clients (+ failed exchanges):
 \* instances by default, client-number with shared-client
-ConnsBounded == ka => Cardinality(Conns) <= ninst + SumOver(fails, DOMAIN fails)
+ConnsBounded == (ka /\ ~expiry) => Cardinality(Conns) <= ninst + SumOver(fails, DOMAIN fails)
 \* a connection is never used by two clients
 NotShared == \A c \in Conns : own[c] # "shared"
+\* idle-conn-timeout shorter than the idle gaps: the pooled connection has expired at the next shot
+ExpiredNotReused == (ka /\ expiry) => \A c \in Conns : nreq[c] <= 1
 \* disable-keep-alives: one connection per request
 OneConnPerRequest == ~ka => \A c \in Conns : nreq[c] <= 1
 \* connect gun: every connection is a tunnel opened by its own CONNECT naming the gun's target
